@@ -703,6 +703,10 @@ class HSM2Dongle:
 
                 ed_bytes = ws_length_bytes + ws_bytes + ov_bytes
 
+            if len(ed_bytes) > 0xffff:
+                self.logger.error("Sign: extradata too big (%d bytes)", len(ed_bytes))
+                return (False, self.RESPONSE.SIGN.ERROR_BTC_TX)
+
             edl_bytes = len(ed_bytes).to_bytes(
                 EXTRADATALENGTH_LENGTH,
                 byteorder='little', signed=False
